@@ -115,7 +115,7 @@ def main(tier, seed):
                 pass
         return k, res, info
 
-    for k, res, info in run.pmap(one, range(ncases)):
+    for k, res, info in run.pmap_proc(one, range(ncases), chunk=4):
         ctx.count('%d|%s|%d|%s' % (info['mode'], info['fmode'], info['acc'], ','.join(info['types'])[:80]), nontrivial=info['named'] and info['created'] >= 3)
         ctx.bump('names_checked', info['created'])
         if info['named'] and info['created'] >= 8:
